@@ -8,8 +8,20 @@ PROFILES = [
 CONFIGS = [(family.SEQ, None), (dict(threads=4, seminaive=True, enc="plain"), sess.PAR0)]
 
 
+def scale_sessions(tier):
+    from . import scale, core
+    return scale.sessions(tier, core.seed() + 5)
+
+
+CONT_PROFILES = [dict(fns=["min"], nrules=4, nsets=1, rels=1, conts=["vec", "set", "vv"], ncmds=14, checks=0.2, sched_depth=1, depth=1,
+                      cont_n=[1, 2], panic=0.2)]
+
+
 def check(tier):
-    return family.check_family(
-        "C04", tier, "c04", [("P3", "MC_EggAbs.cfg", 3, 3)], PROFILES, CONFIGS, (50, 600),
+    return family.check_groups(
+        "C04", tier,
+        [dict(fam="c04", model_specs=[("P3", "MC_EggAbs.cfg", 3, 3)], profiles=PROFILES + CONT_PROFILES, configs=CONFIGS, nrand=(40, 500)),
+         dict(fam="c04scale", model_specs=[], profiles=[], nrand=(0, 0), extra=scale_sessions, configs=CONFIGS)],
         ["after a command that fails at run time the specification does not predict which of that iteration's writes landed; "
-         "it requires the logged state to be canonical, functional and congruence-closed, and later commands to behave consistently with it"])
+         "it requires the logged state to be canonical, functional and congruence-closed, and later commands to behave consistently with it",
+         "large databases (10^4 rows, >1000 containers; family c04scale) are checked for the raw invariants only"])
